@@ -40,6 +40,9 @@ fn menu_item(i: usize, seed: u64) -> (String, Vec<u8>) {
         9 => ("[300B,\"\"]".into(), rc::encode_message(&[big(300, 3), vec![]])),
         10 => ("[9000B]".into(), rc::encode_message(&[big(9000, 4)])),
         11 => ("[a,9000B,b]".into(), rc::encode_message(&[b"a".to_vec(), big(9000, 5), b"b".to_vec()])),
+        // frames of 64 KiB and more, with something behind them (only in the streams listed explicitly below)
+        12 => ("[65536B]".into(), rc::encode_message(&[big(65536, 6)])),
+        13 => ("[a,70000B,b]".into(), rc::encode_message(&[b"a".to_vec(), big(70_000, 7), b"b".to_vec()])),
         _ => unreachable!(),
     }
 }
@@ -533,6 +536,17 @@ pub fn run(tier: Tier, replay: Option<String>) -> i32 {
             }
         }
     }
+    // big frames: alone, in front of and behind each of a few small items
+    for big in [12usize, 13] {
+        specs.push(StreamSpec { items: vec![big] });
+        for small in tier.pick(&[4usize][..], &[1usize, 3, 4, 5, 6, 8, 9][..]) {
+            specs.push(StreamSpec { items: vec![big, *small] });
+            specs.push(StreamSpec { items: vec![*small, big] });
+        }
+        if tier == Tier::Thorough {
+            specs.push(StreamSpec { items: vec![big, big] });
+        }
+    }
     specs.push(StreamSpec { items: vec![] });
     let dense_limit = tier.pick(200, 400);
     let next = AtomicU64::new(0);
@@ -639,7 +653,7 @@ pub fn run(tier: Tier, replay: Option<String>) -> i32 {
         st + tr + ck.coverage.get("e3_executions").and_then(|v| v.as_u64()).unwrap_or(0),
     );
     ck.cov("exhaustive", true);
-    ck.cov("explanation", format!("states = (bytes fed, reader state) nodes summed over {} streams (greeting + up to {} items from a 12-item menu); transitions = edges p->q, each executed on the real FramedRead over a harness reader and required to land in the unique state recorded for q; cut set = every byte position for streams up to {} bytes, else every position within 12 bytes of an item/frame/length-field boundary plus 4096k+-1. Each stream additionally: reference decode of every prefix, and EOF at every cut. Long-stream family (count-based, not a partition enumeration): greeting + READY + 40 / 300 / 1100 (thorough 5000) messages fed whole and in 19 fixed strides (1 B .. 20 kB). Socket level: 7 socket types, all single cuts{} and byte-at-a-time delivery of greeting+READY+2 messages through real attach+recv; plus 'bulk behind the handshake' (the peer writes greeting + READY, optionally padded with an extra property of up to 20 kB (thorough 70 kB), + four 3 kB messages without waiting; one cut at every position of the greeting's tail and of READY, or READY cut once and the rest in 8 KiB pieces) for 5 socket types.", specs.len(), tier.pick(3, 4), dense_limit, tier.pick(", all pairs of cuts past byte 56", ", all pairs of cuts")));
+    ck.cov("explanation", format!("states = (bytes fed, reader state) nodes summed over {} streams (greeting + up to {} items from a 12-item menu (plus 65536 B and 70000 B frames alone, in front of and behind small items)); transitions = edges p->q, each executed on the real FramedRead over a harness reader and required to land in the unique state recorded for q; cut set = every byte position for streams up to {} bytes, else every position within 12 bytes of an item/frame/length-field boundary plus 4096k+-1. Each stream additionally: reference decode of every prefix, and EOF at every cut. Long-stream family (count-based, not a partition enumeration): greeting + READY + 40 / 300 / 1100 (thorough 5000) messages fed whole and in 19 fixed strides (1 B .. 20 kB). Socket level: 7 socket types, all single cuts{} and byte-at-a-time delivery of greeting+READY+2 messages through real attach+recv; plus 'bulk behind the handshake' (the peer writes greeting + READY, optionally padded with an extra property of up to 20 kB (thorough 70 kB), + four 3 kB messages without waiting; one cut at every position of the greeting's tail and of READY, or READY cut once and the rest in 8 KiB pieces) for 5 socket types.", specs.len(), tier.pick(3, 4), dense_limit, tier.pick(", all pairs of cuts past byte 56", ", all pairs of cuts")));
     ck.sample(json!({"stream": build(&StreamSpec{items: vec![1,5]}, seed).2, "cut_positions": cut_set(build(&StreamSpec{items: vec![1,5]}, seed).0.len(), &[], 400).len()}));
     ck.assume("the reader's future behaviour is a function of (decoder Debug state, unread buffer bytes) and the remaining input — true of FramedRead2 + ZmqCodec, whose only fields these are");
     ck.assume("reads larger than 8 KiB are split by FramedRead2's own 8 KiB scratch buffer, as in production");
